@@ -414,7 +414,7 @@ def case_pam(B, cfg):
         return   # term inspection: nothing to replay on floats
     ns = cfg['n_samples']
     models = []
-    for k in range(2):
+    for k in range(len(cfg['weights'])):
         mm = _mech(B, 2, 1, tag='Y%d' % k)
         pm = chi.PredictiveModel(mm, chi.GaussianErrorModel())
         ds, cells = _posterior_dataset(B, pm.get_parameter_names(),
@@ -493,6 +493,14 @@ def jobs(tier):
     for ns in ((1, 2) if q else (1, 2, 3)):
         out.append(('pam', 'case_pam', dict(n_samples=ns,
                                             weights=[2.0, 1.0]), F))
+    # three (four) candidate models, every one of them receiving draws on
+    # some path: the ID shift is cumulative over all earlier blocks
+    out.append(('pam', 'case_pam', dict(n_samples=3, weights=[1.0, 1.0, 1.0]),
+                dict(F, max_paths=1500)))
+    if not q:
+        out.append(('pam', 'case_pam', dict(
+            n_samples=3, weights=[2.0, 0.5, 1.0, 3.0]),
+            dict(F, max_paths=4000)))
     return out
 
 
@@ -502,7 +510,7 @@ BOUNDS = dict(
           '(n_ids configured, n_samples) in {(1,1),(2,2),(1,2),(3,2),(2,1)}; '
           'posteriors with <= 2 chains x 2 draws x 2 individuals, default / '
           'named individual, individual- and population-level scale; prior '
-          'predictive with 1-2 samples; PAM with 2 models and 1-2 samples',
+          'predictive with 1-2 samples; PAM with 2 models and 1-2 samples and with 3 models and 3 samples',
     thorough='more time vectors, a third of all two-unit population '
              'compositions, 2 chains x 3 draws, PAM with 3 samples',
     outside='larger tables; the pseudo-random bit generator; pandas/xarray '
